@@ -100,9 +100,7 @@ fn offsets_to_probe(c: &DocCase) -> Vec<usize> {
 }
 
 /// Compare every `Document` query of `d` with the naive scan.  `tag` names the implementation.
-///
-/// `huge`: also ask for astronomically large record numbers (see `FINDING_SELECT_OVERFLOW`).
-fn check_queries<D: Document>(tag: &str, d: &D, c: &DocCase, m: &Model, expect: &[Vec<usize>], huge: bool, o: &mut Outcome) {
+fn check_queries<D: Document>(tag: &str, d: &D, c: &DocCase, m: &Model, expect: &[Vec<usize>], o: &mut Outcome) {
     let n = c.text.len();
     let recs = c.boundaries.len();
     if d.len() != n {
@@ -213,11 +211,9 @@ fn check_queries<D: Document>(tag: &str, d: &D, c: &DocCase, m: &Model, expect: 
             }
         }
     }
-    // Record numbers far beyond the count: a sparse tree of one level (<= 16 records) answers in
-    // constant time, a deeper one walks k / 16 steps, so the astronomically large ones are only
-    // asked of one-level trees (and only in strict mode, see FINDING_SELECT_OVERFLOW).
-    for r in [recs, recs + 1, recs + 17, n, n + 1, 1 << 22, usize::MAX / 2, usize::MAX - 1] {
-        if r < recs || (r > (1 << 32) && !(huge && recs <= 16)) {
+    // Record numbers beyond the count, up to the largest the type can hold, in every mode.
+    for r in [recs, recs + 1, recs + 17, n, n + 1, n + 2, 1 << 22, (1 << 32) + 1, 1 << 40, usize::MAX / 2, usize::MAX - 1] {
+        if r < recs {
             continue;
         }
         if let Ok(got) = d.retrieve(RecordOffset(r)) {
@@ -332,23 +328,6 @@ fn describe(c: &DocCase, expect: &[Vec<usize>], valid: bool, o: &mut Outcome) {
     o.nontrivial = c.boundaries.len() >= 2 && many && none;
 }
 
-/// Finding: `sparse::BitVector::select(k)` has no range check on `k`.  `Leaf::select` multiplies
-/// it by the word width, so record numbers near `usize::MAX` overflow (a panic in checked builds,
-/// a wrapped bit offset and possibly a wrong `Some` otherwise) instead of giving `None` / `Err`;
-/// with two or more levels the descent subtracts the skip factor `k / 16` times first.  Outside
-/// strict mode such record numbers are not asked for.
-pub const FINDING_SELECT_OVERFLOW: &str = "C19-sparse-select-overflow";
-
-/// Returns whether the huge record numbers are to be probed; counts the exclusion otherwise.
-fn probe_huge(ctx: &Ctx, o: &mut Outcome) -> bool {
-    if ctx.strict {
-        true
-    } else {
-        o.excluded.push(FINDING_SELECT_OVERFLOW.to_string());
-        false
-    }
-}
-
 ///////////////////////////////////////////// queries part /////////////////////////////////////////
 
 pub struct DocQueries;
@@ -371,7 +350,7 @@ impl Property for DocQueries {
     fn max_shrink_iters(&self) -> u32 {
         300
     }
-    fn run(&self, ctx: &Ctx, c: &DocCase) -> Outcome {
+    fn run(&self, _: &Ctx, c: &DocCase) -> Outcome {
         let mut o = Outcome::pass();
         let valid = boundaries_valid(c.text.len(), &c.boundaries);
         let m = Model {
@@ -420,12 +399,11 @@ impl Property for DocQueries {
                 return o;
             }
         };
-        let huge = probe_huge(ctx, &mut o);
-        check_queries("compressed", &cdoc, c, &m, &expect, huge, &mut o);
+        check_queries("compressed", &cdoc, c, &m, &expect, &mut o);
         if o.failed() {
             return o;
         }
-        check_queries("reference", &rdoc, c, &m, &expect, true, &mut o);
+        check_queries("reference", &rdoc, c, &m, &expect, &mut o);
         o
     }
 }
@@ -488,7 +466,7 @@ impl Property for DocSerialize {
                         o.fail(format!("{tag}:trailing-bytes"), format!("unpack left {} unconsumed bytes", rest.len()));
                         return o;
                     }
-                    check_queries(tag, &d, c, &m, &expect, false, &mut o);
+                    check_queries(tag, &d, c, &m, &expect, &mut o);
                     if o.failed() {
                         return o;
                     }
@@ -510,7 +488,7 @@ impl Property for DocSerialize {
         let mut moved = vec![0x5au8; shift];
         moved.extend_from_slice(&rbuf);
         match ReferenceDocument::unpack(&moved[shift..]) {
-            Ok((d, _)) => check_queries("reference-parse-2", &d, c, &m, &expect, false, &mut o),
+            Ok((d, _)) => check_queries("reference-parse-2", &d, c, &m, &expect, &mut o),
             Err(e) => o.fail("reference-parse-2:unpack-error", format!("ReferenceDocument::unpack = Err({e:?}); {}", show_case(c))),
         }
         o
